@@ -1407,7 +1407,8 @@ def install_numpy_models(interp):
         if isinstance(x, np.ndarray) and x.dtype != object:
             with np.errstate(all="ignore"):
                 return np.sqrt(x)
-        return elementwise(m_sqrt)(interp, x)
+        r = elementwise(m_sqrt)(interp, x)
+        return np.float64(r) if isinstance(r, float) else r       # numpy scalars, as numpy returns
     register_model(np.sqrt, _always(_np_sqrt))
     register_model(np.exp, elementwise(m_exp))
     register_model(np.log, elementwise(m_log))
@@ -1663,6 +1664,41 @@ def install_numpy_models(interp):
         return interp.truth(And(*[Eq(x, y) for x, y in zip(A.reshape(-1).tolist(), B_.reshape(-1).tolist())]) if A.size else True)
     register_model(np.array_equal, n_array_equal)
     register_model(np.copy, lambda interp, a, **kw: a if is_sym(a) else to_obj_array(a).copy())
+
+    def n_cov(interp, m, y=None, rowvar=True, bias=False, ddof=None, **kw):
+        rows = []
+        for part in (m, y):
+            if part is None:
+                continue
+            A = to_obj_array(part)
+            if A.ndim == 1:
+                rows.append(A.tolist())
+            else:
+                rows.extend(r.tolist() for r in (A if rowvar else A.T))
+        n = len(rows[0])
+        div = n if (bias and ddof is None) else n - (1 if ddof is None else ddof)
+        means = [truediv(functools.reduce(add, r), n) for r in rows]
+        k = len(rows)
+        out = np.empty((k, k), dtype=object)
+        for i in range(k):
+            for j in range(k):
+                out[i, j] = truediv(functools.reduce(add, [mul(sub(a_, means[i]), sub(b_, means[j])) for a_, b_ in zip(rows[i], rows[j])]), div)
+        return out
+    register_model(np.cov, n_cov)
+
+    def n_inv(interp, A):
+        A = to_obj_array(A)
+        if A.shape == (1, 1):
+            return to_obj_array([[truediv(1, A[0, 0])]])
+        if A.shape == (2, 2):
+            det = sub(mul(A[0, 0], A[1, 1]), mul(A[0, 1], A[1, 0]))
+            if interp.truth(compare(det, 0, "==")):
+                raise PyRaise("LinAlgError", "Singular matrix")
+            return to_obj_array([[truediv(A[1, 1], det), truediv(-A[0, 1], det)], [truediv(-A[1, 0], det), truediv(A[0, 0], det)]])
+        raise Unsupported("matrix inverse beyond 2x2")
+    register_model(np.linalg.inv, n_inv)
+    register_model(np.absolute, elementwise(abs))
+    register_model(np.dot, lambda interp, a, b, **kw: _decay(np_matmul(to_obj_array(a), to_obj_array(b))) if (to_obj_array(a).ndim and to_obj_array(b).ndim) else mul(a, b))
 
     def n_isscalar(interp, x):
         return is_sym(x) or np.isscalar(x)
